@@ -64,3 +64,62 @@ INSTANCES = {
     "seq_att": (dict(menu=["root", "child", "setlp", "dropg", "lenter", "lexit", "drop"] + ATT, MaxOps=5, MaxSpans=2, MaxRoots=1,
                      MaxAtt=3, MaxCycles=2), "terminal", {}),
 }
+
+
+# ---------------- menu-driven instances, one thread ------------------------------------------------
+def seq(menu, **kw):
+    d = dict(threads=[1], born=[1], K=16, menu=menu, MaxCycles=1)
+    d.update(kw)
+    return d
+
+
+INSTANCES.update({
+    # C02: tree shapes
+    "tree4": (seq(TREE + ["child2"], MaxOps=4, MaxSpans=3, MaxRoots=2, MaxTraces=2), "terminal", {}),
+    "tree5": (seq(TREE + ["child2"], MaxOps=5, MaxSpans=3, MaxRoots=2, MaxTraces=2), "terminal", {}),
+    "tree6": (seq(TREE + ["child2"], MaxOps=6, MaxSpans=3, MaxRoots=2, MaxTraces=2, MaxScopes=3, MaxLocal=3, MaxCycles=1), "terminal", {}),
+    # C05: sampling decision through every route
+    "smp4": (seq(["root", "child", "child2", "childl", "setlp", "dropg", "lenter", "lexit", "levent", "sevent", "drop", "ctxs", "ctxl"],
+                 smp=[True, False], MaxOps=4, MaxSpans=3, MaxRoots=2, MaxTraces=2, MaxAtt=1), "terminal", {}),
+    "smp5": (seq(["root", "child", "child2", "childl", "setlp", "dropg", "lenter", "lexit", "levent", "sevent", "drop", "ctxs", "ctxl"],
+                 smp=[True, False], MaxOps=5, MaxSpans=3, MaxRoots=2, MaxTraces=2, MaxAtt=1), "terminal", {}),
+    # C06: attachments through the three routes, cycles anywhere
+    "att4": (seq(["root", "child", "setlp", "dropg", "lenter", "lexit", "drop"] + ATT, MaxOps=4, MaxSpans=2, MaxAtt=2, MaxCycles=2), "terminal", {}),
+    "att5": (seq(["root", "child", "setlp", "dropg", "lenter", "lexit", "drop"] + ATT, MaxOps=5, MaxSpans=2, MaxAtt=3, MaxCycles=2), "terminal", {}),
+    "att4_c": (seq(["root", "child", "setlp", "dropg", "lenter", "lexit", "drop"] + ATT, MaxOps=4, MaxSpans=2, MaxAtt=2, MaxCycles=2, cancelable=True), "terminal", {}),
+    # C10: scopes nest and restore (no cycles needed until the end)
+    "scope5": (seq(["root", "setlp", "dropg", "lcstart", "lcdrop", "lenter", "lexit", "ctxl", "childl"], MaxOps=5, MaxSpans=2, MaxScopes=3,
+                   MaxLocal=2, MaxCycles=0), "terminal", {}),
+    "scope6": (seq(["root", "setlp", "dropg", "lcstart", "lcdrop", "lenter", "lexit", "ctxl", "childl"], MaxOps=6, MaxSpans=2, MaxScopes=3,
+                   MaxLocal=3, MaxCycles=0), "terminal", {}),
+    # C11: contexts
+    "ctx4": (seq(["root", "child", "child2", "childm", "mknoop", "setlp", "dropg", "lenter", "lexit", "ctxl", "ctxs", "rootctx", "drop"],
+                 MaxOps=4, MaxSpans=3, MaxRoots=2, MaxTraces=2, MaxCycles=0, smp=[True, False]), "terminal", {}),
+    "ctx5": (seq(["root", "child", "child2", "childm", "mknoop", "setlp", "dropg", "lenter", "lexit", "ctxl", "ctxs", "rootctx", "drop"],
+                 MaxOps=5, MaxSpans=3, MaxRoots=2, MaxTraces=2, MaxCycles=0, smp=[True, False]), "terminal", {}),
+    # C17: detached local spans
+    "lc5": (seq(["root", "lcstart", "lccollect", "lenter", "lexit", "levent", "lprops", "pushc", "drop"], MaxOps=5, MaxSpans=2, MaxRoots=2,
+                MaxTraces=2, MaxAtt=2, MaxLs=1, MaxCycles=1), "terminal", {}),
+    "lc6": (seq(["root", "lcstart", "lccollect", "lenter", "lexit", "levent", "lprops", "pushc", "drop"], MaxOps=6, MaxSpans=2, MaxRoots=2,
+                MaxTraces=2, MaxAtt=2, MaxLs=1, MaxCycles=1), "terminal", {}),
+    # C07 / C16: hostile calls
+    "hostile4": (seq(["root", "mknoop", "child", "childm", "childl", "setlp", "dropg", "lenter", "lexit", "levent", "lprops", "lwith", "lpropsre",
+                      "lwithre", "sprops", "swith", "sevent", "cancel", "ctxl", "ctxs", "drop", "lcstart", "lcdrop"],
+                     MaxOps=4, MaxSpans=3, MaxAtt=2, MaxCycles=0, K=1, QCap=2, SCap=1, MaxScopes=2), "terminal", {}),
+    "notready4": (seq(["root", "child", "childl", "setlp", "dropg", "lenter", "lexit", "levent", "lprops", "lwith", "sprops", "swith", "sevent",
+                       "cancel", "ctxl", "ctxs", "drop"], MaxOps=4, MaxSpans=3, MaxAtt=3, MaxCycles=1, ready=False), "terminal", {}),
+    # C04 / C09: cancel and overload
+    "cancel4_c": (dict(threads=[1, 2], born=[1, 2], K=8, menu=["root", "child", "cancel", "drop", "exit"], MaxOps=4, MaxSpans=2, MaxCycles=2,
+                       cancelable=True, trackcut=True), "terminal", {}),
+    "cancel4_d": (seq(["root", "child", "cancel", "drop", "sevent", "levent", "setlp", "dropg"], MaxOps=4, MaxSpans=2, MaxAtt=1, MaxCycles=2), "terminal", {}),
+    "over5_c": (seq(["root", "cancel", "drop", "sevent", "exit"], K=2, MaxOps=5, MaxSpans=2, MaxRoots=2, MaxAtt=3, MaxCycles=3, cancelable=True),
+                "terminal", {}),
+    "over5_d": (seq(["root", "child", "drop", "sevent", "exit"], K=2, MaxOps=5, MaxSpans=2, MaxRoots=2, MaxAtt=3, MaxCycles=3), "terminal", {}),
+    "qlimit5": (seq(["root", "setlp", "dropg", "lenter", "lexit", "levent", "lprops", "drop"], QCap=2, MaxOps=6, MaxSpans=1, MaxAtt=3, MaxLocal=3,
+                    MaxCycles=0), "terminal", {}),
+    # C03 / C08: two threads, cancelable / retention
+    "par4_c": (dict(threads=[1, 2], born=[1, 2], K=8, menu=["root", "child", "drop", "exit"], MaxOps=4, MaxSpans=2, MaxCycles=2, cancelable=True,
+                    trackcut=True), "terminal", {}),
+    "par4": (dict(threads=[1, 2], born=[1, 2], K=8, menu=["root", "child", "drop", "exit"], MaxOps=4, MaxSpans=2, MaxCycles=2, trackcut=True),
+             "terminal", {}),
+})
